@@ -234,3 +234,135 @@ mcp_inorder!(mcp_inorder_n1, 1);
 mcp_inorder!(mcp_inorder_n2, 2);
 //@K props=C04 tier=thorough label=bnd feat=nostd fn=DynCtx::match_call_pattern[InOrder] bound=patterns=3 timeout=1200
 mcp_inorder!(mcp_inorder_n3, 3);
+
+fn any_info() -> MockFnInfo {
+    let mut info = fh::info_a();
+    info.has_default_impl = kani::any();
+    info.partial_by_default = kani::any();
+    info
+}
+
+/// DynCtx::eval_dyn for a method NO clause mentions (C07; empty method table, loop-free => complete over all
+/// (has_default_impl, partial_by_default, fallback mode)): precedence default body > partial-by-default > fallback mode
+/// (strict: Err(NoMockImplementation), partial: Unmock).  The matcher is never consulted, nothing is counted.
+//@K props=C07 tier=quick label=full feat=nostd fn=DynCtx::eval_dyn[unmentioned]
+#[kani::proof]
+#[kani::unwind(4)]
+fn eval_dyn_unmentioned() {
+    let strict: bool = kani::any();
+    let state = sh::empty_state(if strict { FallbackMode::Error } else { FallbackMode::Unmock });
+    let g: usize = kani::any();
+    sh::set_ordered_index(&state, g);
+    let info = any_info();
+    let ctx = DynCtx { info, shared_state: &state, input_debugger: &no_inputs };
+    let matcher = |_p: &CallPattern, _rep: Option<&mut MismatchReporter>| -> PatternResult<bool> {
+        assert!(false); // nothing to consult
+        Ok(true)
+    };
+    let r = ctx.eval_dyn(&matcher);
+    if info.has_default_impl {
+        assert!(matches!(r, Ok(EvalResult::CallDefaultImpl)));
+    } else if info.partial_by_default {
+        assert!(matches!(r, Ok(EvalResult::Unmock)));
+    } else if strict {
+        assert!(matches!(r, Err(MockError::NoMockImplementation { .. })));
+    } else {
+        assert!(matches!(r, Ok(EvalResult::Unmock)));
+    }
+    assert!(sh::peek_ordered_index(&state) == g);
+    kani::cover!(info.has_default_impl && info.partial_by_default);
+    kani::cover!(!info.has_default_impl && !info.partial_by_default && strict);
+    core::mem::forget(r);
+    core::mem::forget(state);
+}
+
+macro_rules! eval_dyn_mentioned {
+    ($name:ident, $n:expr) => {
+        /// DynCtx::eval_dyn for a MENTIONED unordered method (C01, C07; K-bnd in the number of patterns; one-entry method table).
+        /// ensures: first non-rejecting pattern f accepts -> its responder for the PRE-increment count is selected and exactly
+        ///          counter[f] is +1, all others unchanged; all reject -> strict: Err(NoMatchingCallPatterns), partial: Unmock -
+        ///          whatever has_default_impl / partial_by_default say - and NO counter changes; the global ordered index never moves.
+        #[kani::proof]
+        #[kani::unwind(8)]
+        fn $name() {
+            const N: usize = $n;
+            let mut verdict = [0u8; N];
+            let mut counts = [0usize; N];
+            let mut patterns: Vec<CallPattern> = Vec::with_capacity(N);
+            let mut i = 0;
+            while i < N {
+                verdict[i] = kani::any();
+                kani::assume(verdict[i] < 2); // accept / reject (matcher errors: see mcp_anyorder_*)
+                counts[i] = kani::any();
+                kani::assume(counts[i] < usize::MAX);
+                let mut responders = Vec::with_capacity(1);
+                responders.push(crate::call_pattern::DynCallOrderResponder { response_index: 0, responder: ph::tag_responder(i as u8) });
+                patterns.push(ph::mk_pattern(0, 0, ch::mk_counter(counts[i], kani::any(), ch::any_exactness().1), responders));
+                i += 1;
+            }
+            let fm = fh::mk_fn_mocker(PatternMatchMode::InAnyOrder, patterns);
+            let strict: bool = kani::any();
+            let mut map = crate::alloc::BTreeMap::new();
+            map.insert(fh::info_a().type_id, fm);
+            let state = SharedState::new(map, if strict { FallbackMode::Error } else { FallbackMode::Unmock });
+            let g: usize = kani::any();
+            sh::set_ordered_index(&state, g);
+            let fm = state.fn_mockers.values().next().unwrap();
+            let info = any_info();
+            let ctx = DynCtx { info, shared_state: &state, input_debugger: &no_inputs };
+            let matcher = |p: &CallPattern, _rep: Option<&mut MismatchReporter>| -> PatternResult<bool> {
+                let mut k = 0;
+                while k < N {
+                    if core::ptr::eq(p, &fm.call_patterns[k]) {
+                        return verdict_result(verdict[k]);
+                    }
+                    k += 1;
+                }
+                assert!(false);
+                Ok(false)
+            };
+            let r = ctx.eval_dyn(&matcher);
+            let mut first: Option<usize> = None;
+            let mut j = N;
+            while j > 0 {
+                j -= 1;
+                if verdict[j] == 1 {
+                    first = Some(j);
+                }
+            }
+            match first {
+                None => {
+                    if strict {
+                        assert!(matches!(r, Err(MockError::NoMatchingCallPatterns { .. })));
+                    } else {
+                        assert!(matches!(r, Ok(EvalResult::Unmock)));
+                    }
+                }
+                Some(f) => match &r {
+                    Ok(EvalResult::Responder(er)) => {
+                        assert!(er.pat_index.0 == f);
+                        assert!(core::ptr::eq(er.dyn_responder, &fm.call_patterns[f].responders[0].responder));
+                    }
+                    _ => assert!(false),
+                },
+            }
+            let mut k = 0;
+            while k < N {
+                let expect = if first == Some(k) { counts[k] + 1 } else { counts[k] };
+                assert!(ch::peek(&fm.call_patterns[k].call_counter) == expect);
+                k += 1;
+            }
+            assert!(sh::peek_ordered_index(&state) == g);
+            kani::cover!(first.is_none() && strict);
+            kani::cover!(first.is_none() && !strict && info.has_default_impl);
+            kani::cover!(N == 0 || first.is_some());
+            core::mem::forget(r);
+            core::mem::forget(state);
+        }
+    };
+}
+
+//@K props=C01,C07 tier=quick label=bnd feat=nostd fn=DynCtx::eval_dyn[mentioned,InAnyOrder] bound=patterns=1 timeout=900
+eval_dyn_mentioned!(eval_dyn_mentioned_n1, 1);
+//@K props=C01,C07 tier=thorough label=bnd feat=nostd fn=DynCtx::eval_dyn[mentioned,InAnyOrder] bound=patterns=2 timeout=1800
+eval_dyn_mentioned!(eval_dyn_mentioned_n2, 2);
